@@ -92,6 +92,13 @@ def _gen_case(rng, tier, g):
             names = ['ab', 'a', 'b', 'abc', 'bc']
             left = [names[:nfl]] + left[1:]
             right = [names[:nfr]] + right[1:]
+        if rng.random() < 0.1:
+            # field names that are not text (years, None) among the non-key
+            # fields: the header of a join holds the field objects themselves
+            if nfl >= 3:
+                left[0][2] = rng.choice([2020, None, 2.5])
+            if nfr >= 3:
+                right[0][2] = rng.choice([2021, 2020, True])
         if not ragged and rng.random() < 0.3:
             # the fields of the right table in another order: a key named
             # the same sits at different positions in the two tables
